@@ -13,8 +13,6 @@ package main
 
 import (
 	"fmt"
-	"os"
-	"sort"
 	"strings"
 
 	"github.com/ysugimoto/falco/v2/config"
@@ -94,19 +92,7 @@ func lintAPI(args string) string {
 	return strings.Join(out, " ")
 }
 
-// lint-rules: the rule names the linter declares (for generating override sets of rules that did not fire)
-func lintRules(string) string {
-	var out []string
-	for _, e := range []linter.Severity{linter.ERROR, linter.WARNING, linter.INFO, linter.IGNORE} {
-		out = append(out, string(e))
-	}
-	sort.Strings(out)
-	return strings.Join(out, " ")
-}
-
 func init() {
 	register("lint-ignore", lintIgnore)
 	register("lintapi", lintAPI)
-	register("lint-severities", lintRules)
-	_ = os.Getenv
 }
